@@ -200,7 +200,9 @@ IsNaN(cell) == cell.nan = 1
 NoNc == [kind |-> "nan", rows |-> <<>>, conds |-> <<>>, by |-> "", folds |-> <<>>]
 LooNc(ob, by) == [kind |-> "loo", rows |-> ob.rows, conds |-> ob.pats, by |-> by, folds |-> <<>>]
 \* cv_noise_ceiling: per fold lower = sim(pool(ceil rows) at the test conditions, test object),
-\* upper = sim(pool(all rows of the evaluated object) restricted to the test conditions, test object)
+\* upper = sim(pool of ALL rows of the evaluated object AT the test conditions allP of the fold -- the object is
+\* restricted first (subsample_pattern by the fold's test index list, so with the multiplicity of the sample)
+\* and pooled afterwards -- , test object)
 CvNc(c, ob, FF) == [kind |-> "cv", rows |-> ob.rows, conds |-> ob.pats, by |-> c.byP,
                     folds |-> [f \in DOMAIN FF |-> [ceR |-> FF[f].ceR, ceP |-> FF[f].ceP, teR |-> FF[f].teR,
                                                      teP |-> FF[f].teP, teI |-> FF[f].teI,
@@ -424,7 +426,7 @@ CeilingSameSample == phase \in {"stored", "done"} =>
                /\ Len(n.folds) = NFolds(rc)
                /\ \A f \in DOMAIN n.folds :
                     LET key == <<k[1], 1, f, k[2], k[3]>>  F == n.folds[f] IN
-                    /\ F.allP = F.teP                 \* pooled prediction restricted = test conditions, in order
+                    /\ F.allP = F.teP                 \* conditions of the pooled upper-bound object = test conditions, in order
                     /\ F.ceP = F.teP
                     /\ key \in DOMAIN ev /\ ~IsNaN(ev[key]) => ev[key].data.rows = F.teR /\ ev[key].data.conds = F.teP
                     /\ key \in DOMAIN ev /\ ~IsNaN(ev[key]) => F.ceR = ev[key].pred.theta.rows
